@@ -4,6 +4,7 @@ import (
 	"math"
 	"reflect"
 	"sort"
+	"sync"
 	"unsafe"
 )
 
@@ -16,6 +17,10 @@ func Tag(key interface{}) {
 	t := getCur()
 	if t == nil {
 		return
+	}
+	if degradedOn {
+		degradedMu.Lock()
+		defer degradedMu.Unlock()
 	}
 	rv := reflect.ValueOf(key)
 	if rv.Kind() != reflect.Ptr || rv.IsNil() {
@@ -30,6 +35,19 @@ func Tag(key interface{}) {
 		t.tags[p] = t.nextTag
 	}
 }
+
+// Degraded mode: the library runs code on goroutines the scheduler does not own
+// (goroutines it starts itself, finalizers). Those goroutines reach Tag and
+// Keys while the current task may be in them too, so the per-task bookkeeping
+// is serialised. (Only then: a mutex here would give the race detector
+// happens-before edges between tasks that the library did not ask for.)
+var (
+	degradedOn bool
+	degradedMu sync.Mutex
+)
+
+// SetDegraded switches the serialisation on; call before any task starts.
+func SetDegraded(on bool) { degradedOn = on }
 
 // sortKey flattens a map key into a list of uint64 that compares
 // lexicographically in the canonical order.
@@ -125,6 +143,10 @@ func (k *keySorter) Less(i, j int) bool {
 // chosen for this range invocation. The instrumenter rewrites every
 // range-over-map in the library to range over this slice instead.
 func Keys(site int, m interface{}) interface{} {
+	if degradedOn {
+		degradedMu.Lock()
+		defer degradedMu.Unlock()
+	}
 	t := getCur()
 	rv := reflect.ValueOf(m)
 	keys := rv.MapKeys()
